@@ -152,6 +152,7 @@ static std::vector<CompDef> build_components()
   std::string g12 = "group1 {\n@G0@}\ngroup2 {\n@G1@}\n";
   add("distance", T_SCALAR, "distance {\n@OPTS@" + g12 + "}\n", {A, B}, true, true);
   add("distanceVec", T_VEC3, "distanceVec {\n@OPTS@" + g12 + "}\n", {A, B}, true, true);
+  add("distanceVec/forceNoPBC", T_VEC3, "distanceVec {\n@OPTS@forceNoPBC on\n" + g12 + "}\n", {A, B}, true, true);
   add("distanceDir", T_UNIT, "distanceDir {\n@OPTS@" + g12 + "}\n", {A, B}, true, true);
   add("distanceZ", T_SCALAR, "distanceZ {\n@OPTS@axis ( 0.3 , -0.5 , 0.8 )\nmain {\n@G0@}\nref {\n@G1@}\n}\n", {A, B}, true, true);
   add("distanceZ/ref2", T_SCALAR, "distanceZ {\n@OPTS@main {\n@G0@}\nref {\n@G1@}\nref2 {\n@G2@}\n}\n", {A, B, Cg}, true, true);
